@@ -77,6 +77,12 @@ def run(ctx):
             mus = rng.normal(size=(K, n))
             lds = np.array([np.linalg.slogdet(t)[1] for t in thetas])
             data = rng.normal(size=(T, n)) * 2
+            if i % 6 == 5 or i < 2:
+                # held / stuck sensor readings: stretches of identical consecutive windows, many more points than threads
+                T = 4000 + 37 * i
+                data = rng.normal(size=(T, n)) * 2
+                for start in range(50, T - 40, 230):
+                    data[start:start + 25] = data[start]
             payload.append((W, K, mus, thetas, lds, data, ["C", "F", "view", "readonly"][i % 4]))
         handles = {"interp": core.start_worker(ctx, "vcheck.props.c15:ll_tables", payload, mode="interp", tag="ll"),
                    "nonumba": core.start_worker(ctx, "vcheck.props.c15:ll_tables", payload, mode="nonumba", tag="ll")}
